@@ -483,6 +483,11 @@ func ruleLpmDiverge(c *Ctx, r *Reporter) {
 					default:
 						continue
 					}
+					if !cont.Dominates(u.Block()) {
+						// not the gate of the descent: the step is reachable from both outcomes of this
+						// test (e.g. the first operand of the exact-match conjunction)
+						continue
+					}
 					var exit *ssa.BasicBlock
 					seen := map[*ssa.BasicBlock]bool{}
 					var walk func(b *ssa.BasicBlock)
